@@ -51,11 +51,21 @@ def canon_snap(db):
     """representation only: relation/counter/duplicate sets as sorted lists, attribute keys and values sorted"""
     return {"feats": [dbio.canon_feature(f) for f in db["feats"]],
             "rels": sorted([list(r) for r in db["rels"]]), "ctr": sorted([list(r) for r in db["ctr"]]),
-            "dups": sorted([list(r) for r in db["dups"]]), "dirs": db["dirs"], "nmeta": db["nmeta"]}
+            "dups": sorted([list(r) for r in db["dups"]]), "dirs": db["dirs"], "nmeta": db["nmeta"], "dialect": db.get("dialect")}
 
 
 def diff_clause(exp, got):
     for k in ("feats", "rels", "ctr", "dups", "dirs", "nmeta"):
+        if k == "nmeta":
+            # HOW MANY rows the meta table holds is bookkeeping no statement mentions (update() appends one, other code might keep one);
+            # what matters is that the database still has its version/dialect row at all (and is readable: -1)
+            if (exp[k] >= 1) != (got[k] >= 1):
+                return "meta_rows"
+            continue
+        if k == "dups":
+            # the duplicates table is the importer's private bookkeeping for later collisions; no statement speaks of its rows. What it is
+            # FOR is observable - and compared - as the keys / merged content of later arrivals (>= 3 arrivals per key in MC_DB05 and in the random histories)
+            continue
         if exp[k] != got[k]:
             if k == "feats":
                 if [f["id"] for f in exp[k]] != [f["id"] for f in got[k]]:
